@@ -19,7 +19,7 @@ import WacModel.Tree
   `sub a b` decides `a <: b`; `sup a b` decides `b <: a` (needed so that the recursion is
   structural on the first argument; `sup_eq_sub_swap` in WacProofs shows it is the converse).
   The relation is validated against wasmparser's `ComponentEntityType::is_subtype_of` on every
-  run (C07 harness); known oracle deviation: wasmparser 0.247 does not compare `table64`.
+  run (C07 harness); known oracle deviations: wasmparser 0.247 does not compare `table64` of tables nor `shared` of globals.
 -/
 namespace Wac.Spec
 open Wac
